@@ -206,9 +206,15 @@ def evaluate(stream, cases):
     """returns (impl, model, oracle) line lists"""
     rc, impl, err = run_lines([bin_path(stream.bin)] + stream.impl_args, cases)
     if len(impl) != len(cases):
-        raise RuntimeError(
-            f"harness {stream.bin} returned {len(impl)} lines for {len(cases)} cases (rc={rc}): {err[-2000:]}"
-        )
+        # the harness process died (abort, stack overflow, ...): find the case by bisection; a case that kills the harness on
+        # its own is reported as such (the oracle rejects the line), the others are evaluated normally
+        if len(cases) == 1:
+            impl = [f"harness-died rc={rc} {err.strip().splitlines()[-1][:120] if err.strip() else ''}"]
+        else:
+            mid = len(cases) // 2
+            a = evaluate(stream, cases[:mid])
+            b = evaluate(stream, cases[mid:])
+            return a[0] + b[0], a[1] + b[1], a[2] + b[2]
     if stream.compare_model:
         rc, model, err = run_lines([DRV, "model", stream.engine], cases)
         if len(model) != len(cases):
